@@ -27,7 +27,9 @@ Definition calm (w : world) (o : op) : Prop :=
   | OPutAtFront _ _ _ | OPutAtBack _ _ _ | OPutBefore _ _ _ _ | OPutBehind _ _ _ _ | OPutAtPos _ _ _ _
   | OMoveFront _ _ | OMoveBack _ _ | OMoveBefore _ _ _ | OMoveBehind _ _ _ | OMovePos _ _ _
   | OGetMoveFront _ _ | OGetMoveBack _ _ | OSortKey _ | OSortVal _ | OSort _ | OReposition _ _
-  | OSetAutoSort _ _ _ | OCopyFrom _ _ _ | OCopyCtor _ _ => fst (step1 var dcap w o) = w
+  | OSetAutoSort _ _ _ => fst (step1 var dcap w o) = w
+  | OCopyFrom _ _ cf => cf = true \/ fst (step1 var dcap w o) = w
+  | OCopyCtor _ _ => True
   | _ => True
   end.
 
@@ -78,6 +80,20 @@ Lemma calm_same_records : forall w w' i, geti (its w') i = geti (its w) i ->
 Proof.
   intros w w' i Hg Ht (it & Hgi & R). split; [apply calm_rel_same; [exact Hg|intros; apply Ht]|].
   exists it. rewrite Hg. auto.
+Qed.
+
+Lemma copy_from_detaches : forall t h I src srccap, TL t h I -> NoDup (map fst src) ->
+  forall j it, geti I j = Some it -> iown it = Some t -> inoreg it = false ->
+    exists it', geti (snd (fst (copy_from var dcap h I src srccap true))) j = Some it' /\ iown it' = None /\ inoreg it' = false.
+Proof.
+  intros t h I src srccap HTL Hnd j it Hg O R. unfold copy_from.
+  pose proof (clear_detaches t dcap h I ((length src =? 0) && (dcap <? cap h)%N) HTL j it Hg O R) as (it' & Hg' & O' & R').
+  pose proof (clear_ok t dcap h I ((length src =? 0) && (dcap <? cap h)%N) HTL) as C.
+  destruct (clear_tab dcap h I ((length src =? 0) && (dcap <? cap h)%N)) as [h1 I1]. cbn [fst snd] in *. destruct C as [HTL1 _].
+  destruct src as [|kv src']; [exists it'; auto|].
+  pose proof (ensure_size_ok t dcap h1 I1 (N.of_nat (cnt h1 + length (kv :: src'))) false HTL1) as [_ F2].
+  destruct (ensure_size dcap h1 I1 _ false) as [[h2 I2] st]. cbn [fst snd] in *.
+  exists it'. split; [|auto]. destruct (st =? 0); cbn [fst snd]; apply (detached_through_frame t I1 I2 j it' F2 Hg' O').
 Qed.
 
 Ltac vt W :=
@@ -145,6 +161,26 @@ Proof.
     pose proof (tscalm_clear t dcap _ _ release (WT t V1)) as S.
     destruct (clear_tab dcap (gett w t) (its w) release) as [h1 I1]. cbn [fst snd] in *.
     apply (tstep_calm w t (h1, I1) i W V1 O S R).
+  - (* CopyFrom *) destruct Hc as [->|Hc]; [|cbn [step1] in Hc; rewrite Hc; exact Same]. vt W. destruct (t =? u); [exact Same|].
+    assert (Hnd : NoDup (map fst (abs (gett w u)))).
+    { destruct (tl_tinv _ _ _ (WT u V2)) as (l & T). rewrite (tinv_abs _ l T), map_map. apply (ti_keys _ _ T). }
+    pose proof (copy_from_ok var dcap t _ _ (abs (gett w u)) (cap (gett w u)) true (WT t V1) Hnd) as [_ F].
+    pose proof (copy_from_detaches t _ _ (abs (gett w u)) (cap (gett w u)) (WT t V1) Hnd) as D.
+    destruct (copy_from var dcap (gett w t) (its w) (abs (gett w u)) (cap (gett w u)) true) as [[h1 I1] st]. cbn [fst snd] in *.
+    apply (calm_of_detaching w t h1 I1 i W V1 F D R).
+  - (* CopyCtor *) vt W. destruct (t =? u); [exact Same|].
+    assert (Hnd : NoDup (map fst (abs (gett w u)))).
+    { destruct (tl_tinv _ _ _ (WT u V2)) as (l & T). rewrite (tinv_abs _ l T), map_map. apply (ti_keys _ _ T). }
+    pose proof (clear_ok t dcap _ _ true (WT t V1)) as O0. pose proof (clear_detaches t dcap _ _ true (WT t V1)) as D0.
+    rewrite (surjective_pairing (clear_tab dcap (gett w t) (its w) true)).
+    set (hold := fst (clear_tab dcap (gett w t) (its w) true)) in *. set (I0 := snd (clear_tab dcap (gett w t) (its w) true)) in *.
+    destruct O0 as [HTL0 F0]. cbn [fst snd] in *.
+    pose proof (fresh_table_TL t hold I0 (cap (gett w u)) true HTL0 eq_refl) as HTLn.
+    pose proof (copy_from_ok var dcap t _ _ (abs (gett w u)) (cap (gett w u)) true HTLn Hnd) as [_ F1].
+    destruct (copy_from var dcap _ I0 (abs (gett w u)) (cap (gett w u)) true) as [[h1 I1] st]. cbn [fst snd] in *.
+    apply (calm_of_detaching w t h1 I1 i W V1 (frame_trans _ _ _ _ F0 F1)); [|exact R].
+    intros j it Hg O Rg. destruct (D0 j it Hg O Rg) as (it' & Hg' & O' & R'). exists it'. split; [|auto].
+    apply (detached_through_frame t I0 I1 j it' F1 Hg' O').
   - (* Swap *) vt W. destruct (t =? u) eqn:E; [exact Same|]. apply Nat.eqb_neq in E. cbn [fst].
     apply (calm_exchange w t u _ _ W V1 V2 E); [repeat split|repeat split|exact R].
   - (* Equal *) destruct (valid_t w t && valid_t w u); exact Same.
